@@ -192,11 +192,14 @@ func (r *RowCache) rowsByModels(models []model.Model, useClientIndexes bool) (ma
 			return nil, err
 		}
 		if uuid := field.(string); uuid != "" {
-			if _, ok := results[uuid]; !ok {
-				if row := r.rowByUUID(uuid); row != nil {
-					results[uuid] = row
-					continue
-				}
+			if _, ok := results[uuid]; ok {
+				// found through an earlier model already: the UUID still takes
+				// precedence over the indexes for this model
+				continue
+			}
+			if row := r.rowByUUID(uuid); row != nil {
+				results[uuid] = row
+				continue
 			}
 		}
 
